@@ -285,7 +285,7 @@ const BLOCK_MASK: u64 = 127;
 const BIT_MASK: u64 = 63;
 
 #[derive(Clone)]
-struct PacketWindowFilter {
+pub struct PacketWindowFilter {
     last_packet_id: u64,
     packet_ring: [u64; RING_BLOCKS as usize],
 }
